@@ -152,8 +152,8 @@ def _stamps(rng, n, kind):
 
 def _cases(tier, seed):
     rng = np.random.default_rng(seed + 505)
-    N = 700 if tier == "quick" else 20000
-    maxlen = 200 if tier == "quick" else 5000
+    N = 700 if tier == "quick" else 8000
+    maxlen = 200 if tier == "quick" else 2500
     # the documented witness of finding F1 and its neighbours
     yield ("assoc", {"s1": [0.0, 0.4], "s2": [0.1, 5.0, 10.0], "max_diff": 1.0, "offset": 0.0})
     yield ("assoc", {"s1": [0.1, 5.0, 10.0], "s2": [0.0, 0.4], "max_diff": 1.0, "offset": 0.0})
